@@ -72,6 +72,9 @@ def harness(cfg, B):
     if chain:
         _hll_chain(cfg, B, model, mname, prim, rhs, f, dt, dx, n)
     kwm = dict(meta={'search_only': 'chain-A, chain-B, chain-C'}) if chain else kw
+    pchain = cfg['flux'] == 'hlle' and cfg.get('pchain', True)
+    if pchain:
+        _hlle_state_chain(cfg, B, model, prim, rhs, f, dt, dx, n)
     if cfg['flux'] in ('hll', 'hlle') and cfg.get('lemma', True) and cfg['bc'] == 'per':
         # lemma chain: the wave-speed estimates of every face are located in the traced DAG (hints), cut to variables and only
         # their defining min/max inequalities and the bound by the one-sided speeds are kept (each proved on the real terms first)
@@ -115,7 +118,8 @@ def harness(cfg, B):
         else:
             B.ob('density>0[%d]' % i, 'lt', B.const(0), f.data[0][i], **(kwm if not kw.get('method') else kw))
             pnew = model.pressure(f.data)
-            B.ob('pressure>0[%d]' % i, 'lt', B.const(0), pnew[i], meta={'sqrt_level': 0})
+            B.ob('pressure>0[%d]' % i, 'lt', B.const(0), pnew[i],
+                 meta={'search_only': 'chain-P (flux form, wave-speed facts, update identity, lemmas M1-M6)'} if pchain else {'sqrt_level': 0})
 
 
 def _hll_chain(cfg, B, model, mname, prim, rhs, f, dt, dx, n):
@@ -180,3 +184,87 @@ def _hll_chain(cfg, B, model, mname, prim, rhs, f, dt, dx, n):
         fp, fm = i + 1, i          # faces right / left of cell i
         new = m[i] - lam * ((mLs[fp] * av[fp] - mRs[fp] * bv[fp]) - (mLs[fm] * av[fm] - mRs[fm] * bv[fm]))
         B.ob('chain-C:mass>0-from-A-and-B[%d]' % i, 'lt', B.const(0), new, assume=facts, replayable=False, meta={'lemma': True})
+
+
+def _hlle_state_chain(cfg, B, model, prim, rhs, f, dt, dx, n):
+    """lemma chain for the whole updated state (density AND pressure) of the HLLE scheme; an admissible state is (r, m, E) with r > 0 and
+    2 r E - m^2 > 0 (a convex cone; the second condition is p > 0). Links, every one a solver query:
+       flux      on the real terms: each component of the code's flux is (sR F(UL) - sL F(UR) + sL sR (UR - UL))/(sR - sL)
+       speeds    on the real terms: sL <= 0 <= sR, sL < sR, sL <= uL - cL, sR >= uR + cR
+       update    on the real terms: U_i' = w U_i + a U*_{i+1/2} + b U*_{i-1/2},  a = -lam sL_{i+1/2}, b = lam sR_{i-1/2}, w = 1 - a - b,
+                 with the HLL average state U* = ((sR UR - F(UR)) + (F(UL) - sL UL))/(sR - sL);  a, b, w >= 0
+       M1, M2    for ALL states: s >= u + c  =>  s U - F(U) admissible;   s <= u - c  =>  F(U) - s U admissible
+       M3, M4    admissible + admissible, and k * admissible (k > 0), are admissible         (=> U* admissible)
+       M6        a combination with weights w, a, b >= 0, w + a + b = 1 of admissible states is admissible (=> U_i' admissible)
+    The instantiation of M1-M6 at the real terms is an argument (their premises are exactly the facts proved on the real terms).
+    As for the mass chain, that dt respects the Roe-average speeds inside sL, sR is an explicit ASSUMPTION."""
+    np = B.np
+    g = model.gamma
+    PL, PR = rhs.pL, rhs.pR
+    nf = n + 1
+    lam = dt / dx[0]
+    lem = {'lemma': True}
+    Ust, sLs, sRs, extras = [], [], [], []
+
+    def cons_flux(r, u, p):
+        E = p / (g - 1) + r * u * u / 2
+        return [r, r * u, E], [r * u, r * u * u + p, u * (E + p)]
+    for fc in range(nf):
+        rL, uL, pL = PL[0][fc], PL[1][fc], PL[2][fc]
+        rR, uR, pR = PR[0][fc], PR[1][fc], PR[2][fc]
+        cL, cR = np.sqrt(g * pL / rL), np.sqrt(g * pR / rR)
+        HL = g / (g - 1) * pL / rL + uL * uL / 2
+        HR = g / (g - 1) * pR / rR + uR * uR / 2
+        w = np.sqrt(rR / rL)
+        uRoe = (uL + uR * w) / (1 + w)
+        cRoe = np.sqrt((g - 1) * ((HL + HR * w) / (1 + w) - uRoe * uRoe / 2))
+        sL = np.minimum(0., np.minimum(uRoe - cRoe, uL - cL))
+        sR = np.maximum(0., np.maximum(uRoe + cRoe, uR + cR))
+        sLs.append(sL)
+        sRs.append(sR)
+        UL, FL = cons_flux(rL, uL, pL)
+        UR, FR = cons_flux(rR, uR, pR)
+        for k, nm in enumerate(('mass', 'momentum', 'energy')):
+            B.ob('chain-P:flux-%s=HLL-form[%d]' % (nm, fc), 'eq', rhs.flux[k][fc],
+                 (sR * FL[k] - sL * FR[k] + sL * sR * (UR[k] - UL[k])) / (sR - sL), method='sweep', meta=lem)
+        kws = dict(meta={'sqrt_level': 0, 'lemma': True}, timeout_ms=min(cfg.get('timeout_ms', 20000), 20000))
+        B.ob('chain-P:face-states-admissible[%d]' % fc, 'true', (rL > 0) & (pL > 0) & (rR > 0) & (pR > 0), **kws)
+        B.ob('chain-P:sL<=0<=sR[%d]' % fc, 'true', (sL <= 0) & (sR >= 0), **kws)
+        B.ob('chain-P:sL<sR[%d]' % fc, 'lt', sL, sR, **kws)
+        B.ob('chain-P:sL<=uL-cL[%d]' % fc, 'le', sL, uL - cL, **kws)
+        B.ob('chain-P:sR>=uR+cR[%d]' % fc, 'le', uR + cR, sR, **kws)
+        extras += [dt * sR <= dx[0] / 2, dt * (-sL) <= dx[0] / 2]
+        Ust.append([((sR * UR[k] - FR[k]) + (FL[k] - sL * UL[k])) / (sR - sL) for k in range(3)])
+    B.note('hlle: ASSUMED that the time step also respects the Roe-average wave speeds (dt*sR <= dx/2, dt*|sL| <= dx/2)')
+    for i in range(n):
+        fp, fm = i + 1, i
+        a, b = -lam * sLs[fp], lam * sRs[fm]
+        wgt = 1 - a - b
+        Ui, _ = cons_flux(prim[0][i], prim[1][i], prim[2][i])
+        for k, nm in enumerate(('mass', 'momentum', 'energy')):
+            B.ob('chain-P:update-%s=convex-combination[%d]' % (nm, i), 'eq', f.data[k][i], wgt * Ui[k] + a * Ust[fp][k] + b * Ust[fm][k],
+                 method='sweep', meta=lem)
+        B.ob('chain-P:weights>=0[%d]' % i, 'true', (a >= 0) & (b >= 0) & (wgt >= 0), assume=extras,
+             meta={'sqrt_level': 0, 'lemma': True}, timeout_ms=min(cfg.get('timeout_ms', 20000), 20000))
+    if not B.symbolic:
+        return
+    # the convexity lemmas, for ALL values (fresh variables, no relation to the mesh or the data)
+    r, u, p, c, s = B.var('Mr', 0.1, 2.0), B.var('Mu'), B.var('Mp', 0.1, 2.0), B.var('Mc', 0.1, 2.0), B.var('Ms')
+    U, F = cons_flux(r, u, p)
+    st = [r > 0, p > 0, c > 0, c * c * r == g * p]
+    kwl = dict(replayable=False, meta=lem)
+
+    def adm(X):
+        return (X[0] > 0) & (2 * X[0] * X[2] - X[1] * X[1] > 0)
+    B.ob('chain-P:M1:s>=u+c=>sU-F(U)-admissible', 'true', adm([s * U[k] - F[k] for k in range(3)]), assume=st + [s >= u + c], **kwl)
+    B.ob('chain-P:M2:s<=u-c=>F(U)-sU-admissible', 'true', adm([F[k] - s * U[k] for k in range(3)]), assume=st + [s <= u - c], **kwl)
+    X = [B.var('MX%d' % k) for k in range(3)]
+    Y = [B.var('MY%d' % k) for k in range(3)]
+    Z = [B.var('MZ%d' % k) for k in range(3)]
+    ka, kb = B.var('Ma', 0.0, 1.0), B.var('Mb', 0.0, 1.0)
+    B.ob('chain-P:M3:sum-admissible', 'true', adm([X[k] + Y[k] for k in range(3)]), assume=[adm(X), adm(Y)], **kwl)
+    B.ob('chain-P:M4:scaled-admissible', 'true', adm([ka * X[k] for k in range(3)]), assume=[adm(X), ka > 0], **kwl)
+    comb = [(1 - ka - kb) * X[k] + ka * Y[k] + kb * Z[k] for k in range(3)]
+    B.ob('chain-P:M6:convex-combination-admissible(w>0)', 'true', adm(comb), assume=[adm(X), adm(Y), adm(Z), ka >= 0, kb >= 0, ka + kb < 1],
+         timeout_ms=120000, **kwl)
+    B.ob('chain-P:M6:convex-combination-admissible(w=0)', 'true', adm(comb), assume=[adm(X), adm(Y), adm(Z), ka >= 0, kb >= 0, ka + kb == 1], **kwl)
